@@ -213,6 +213,54 @@ def run(repo, rep, tier):
         if not ok:
             rep.finding("R14.2", make, ctor, f"make_histograms does not forward its parameter `{p}` to the filler as `{p}={p}`: the "
                         f"specification a caller passes (e.g. one returned with ret_specs=True) is ignored", stmt=f"{p} not forwarded")
+    # caller-provided bin specifications are never overwritten: every store into a bin_specs mapping is guarded by a
+    # membership test on the same key (make_histograms: time axis; auto_complete_bin_specs: data-derived binning)
+    from .. import cfg as cfgmod
+    for f, mapping in ((make, "bin_specs"), (repo.lookup(pdh, "auto_complete_bin_specs"), "self.bin_specs")):
+        if not isinstance(f, FuncInfo):
+            raise AnalysisError("auto_complete_bin_specs not found")
+        g = cfgmod.build(f.node)
+        # locals that hold the key set of the mapping (bs_keys = list(self.bin_specs.keys()))
+        keysets = {mapping}
+        for n in walk_local_stmt(f.node):
+            if isinstance(n, ast.Assign) and isinstance(n.targets[0], ast.Name) and mapping in ast.unparse(n.value) and "keys" in ast.unparse(n.value):
+                keysets.add(n.targets[0].id)
+        for n in g.nodes:
+            if n.kind != "stmt" or not isinstance(n.ast, ast.Assign):
+                continue
+            key = None
+            for t in n.ast.targets:
+                if isinstance(t, ast.Subscript) and ast.unparse(t.value) == mapping:
+                    key = ast.unparse(t.slice)
+            if key is None and ast.unparse(n.ast.targets[0]) == mapping and isinstance(n.ast.value, ast.Dict):
+                d = n.ast.value
+                # {**bin_specs, k: v}: later keys override the caller's
+                if any(k is None and ast.unparse(v) == mapping for k, v in zip(d.keys, d.values)):
+                    for k in d.keys:
+                        if k is not None:
+                            key = ast.unparse(k)
+            if key is None:
+                continue
+            # guarded: on every path to the store, `key in <mapping/keys>` has been tested False (or `not in` True)
+            def transfer(node, st):
+                if node.kind == "test":
+                    t = node.ast
+                    neg = False
+                    while isinstance(t, ast.UnaryOp) and isinstance(t.op, ast.Not):
+                        t = t.operand
+                        neg = not neg
+                    if isinstance(t, ast.Compare) and len(t.ops) == 1 and isinstance(t.ops[0], (ast.In, ast.NotIn)) and \
+                            ast.unparse(t.left) == key and ast.unparse(t.comparators[0]) in keysets:
+                        absent_on_true = isinstance(t.ops[0], ast.NotIn) != neg
+                        return {("T" if absent_on_true else "F"): True, ("F" if absent_on_true else "T"): st, None: st}
+                return st
+            states = cfgmod.solve_forward(g, False, transfer, lambda a, b: a and b)
+            ok = bool(states.get(n.id))
+            r2.ob(ok, f"{f.qualname}: store of key `{key}` into {mapping} only when absent")
+            if not ok:
+                rep.finding("R14.2", f, n.stmt, f"`{norm(n.stmt)[:70]}` writes the key `{key}` into {mapping} without first establishing that the "
+                            f"caller did not provide it: a binning specification passed in (e.g. one returned with ret_specs=True) is "
+                            f"silently replaced, so chunks are binned differently from the whole", stmt=f"unguarded store of {key} into {mapping}")
     # ---------------- R14.3
     ghb = repo.lookup(pdh, "get_hist_bin")
     chain = None
